@@ -358,9 +358,13 @@ func TestC04(t *testing.T) {
 		feats := gen.AllFeatures()
 		feats.MixedWrites, feats.StringNumberCompare, feats.NonBoolCond, feats.Unary, feats.TimeBuiltins = true, true, true, true, true
 		feats.BoolInArith = true
+		feats.Histograms, feats.HistIncr = true, true
 		live17 := st.IsLive("C04-1")
 		if live17 {
 			feats.NoFloatIntoInt = true
+		}
+		if st.IsLive("C04-7") {
+			feats.HistIncr = false
 		}
 		liveNeg := st.IsLive("C04-4")
 		if liveNeg {
